@@ -74,7 +74,16 @@ def check_case(case):
         # no-wire round trip first, to localise failures
         try:
             et = inst.to_etree()
-            back = type(inst).from_etree(et)
+            # to_etree() holds decoded text while from_etree() expects text as the parser delivers it (still escaped):
+            # apply the wire escaping in between, without any wire
+            import copy as _copy
+            from pbt.core import reftypes as _R
+
+            et_wire = _copy.deepcopy(et)
+            for e in et_wire.iter():
+                if len(e) == 0 and e.text:
+                    e.text = _R.escape_min(e.text)
+            back = type(inst).from_etree(et_wire)
             df = M.model_diff(inst, back)
             if df:
                 out.append(("etree-roundtrip-differs", f"{desc['cls']}: {df[:3]}"))
